@@ -188,10 +188,15 @@ def deps_cfg(rng, n=None):
         sv = svc(ctor="NewA", scope=rng.choice([U, U, "shared", "contextual", "non_shared"]),
                  tags=[{"n": t, "prio": 0} for t in tags if rng.random() < 0.2],
                  todo="true" if rng.random() < 0.1 else U)
-        if place < 0.6:
+        if place < 0.4:
             sv["args"] = args
-        elif place < 0.8:
+        elif place < 0.55:
             sv["calls"] = [{"m": "SetX", "args": args, "w": False}]
+        elif place < 0.85:
+            # several positions at once: constructor, a call with two arguments followed by another call, a field
+            sv["args"] = args[:1]
+            sv["calls"] = [{"m": "SetX", "args": args[1:3], "w": False}, {"m": "SetY", "args": args[3:], "w": False}]
+            sv["fields"] = [{"n": "F1", "a": rng.choice(args)}] if args else []
         else:
             sv["fields"] = [{"n": "F%d" % (i + 1), "a": a} for i, a in enumerate(args[:3])]
         services[s] = sv
